@@ -909,7 +909,7 @@ func (c *Ctx) ruleTerm(rule string, roots []*ssa.Function, schemaMode bool) {
 		if !bad {
 			continue
 		}
-		k := key(rule, "class A", c.M.Key(e.from)+" -> "+c.M.Key(e.to)+" ("+e.desc+")")
+		k := key(rule, "class A", c.M.Key(e.from)+" -> "+c.M.Key(e.to)+" ("+e.desc+")"+c.entryGuards(edges, e))
 		if seenA[k] {
 			continue
 		}
@@ -917,6 +917,55 @@ func (c *Ctx) ruleTerm(rule string, roots []*ssa.Function, schemaMode bool) {
 		c.R.Bad(rule, k, c.M.InstrPos(e.site), "recursion through a reference cycle that is not driven by the input",
 			"the call "+c.M.Key(e.from)+" -> "+c.M.Key(e.to)+" hands on data that is not a strict component of the caller's input ("+e.desc+") and lies on a cycle of non-descending calls through the reference dereference in "+c.M.Key(via.from)+"; on a recursive reference the recursion is bounded by nothing")
 	}
+}
+
+// entryGuards describes, for a re-seeding edge e, how its source function is entered from outside: the calling
+// functions and the nil tests of receiver fields that dominate each entering call. It is part of the violation's key,
+// so that a recursion that was reachable only for one representation (under `o.fieldCache != nil`) and becomes
+// reachable for all (guard dropped) is a different violation from the recorded one.
+func (c *Ctx) entryGuards(edges []termEdge, e termEdge) string {
+	var parts []string
+	seen := map[string]bool{}
+	for _, x := range edges {
+		if x.to != e.from || x.from == e.from || x.site == nil {
+			continue
+		}
+		var gs []string
+		for _, cond := range core.CondsAt(x.site.Block()) {
+			v, neq, ok := core.NilCmp(cond.V)
+			if !ok {
+				continue
+			}
+			ld, isLoad := v.(*ssa.UnOp)
+			if !isLoad {
+				continue
+			}
+			if _, isField := ld.X.(*ssa.FieldAddr); !isField {
+				continue
+			}
+			op := " == nil"
+			if neq == cond.True {
+				op = " != nil"
+			}
+			gs = append(gs, c.stable(x.from, c.M.ValPath(v))+op)
+		}
+		sort.Strings(gs)
+		d := c.M.Key(x.from)
+		if len(gs) > 0 {
+			d += " under " + strings.Join(gs, " && ")
+		} else {
+			d += " unconditionally"
+		}
+		if !seen[d] {
+			seen[d] = true
+			parts = append(parts, d)
+		}
+	}
+	if len(parts) == 0 {
+		return ""
+	}
+	sort.Strings(parts)
+	return "; entered from " + strings.Join(parts, ", ")
 }
 
 // refineByFieldStores: an invoke on a value loaded from an unexported struct field can only reach the dynamic types
